@@ -17,43 +17,142 @@ import (
 // ---------------------------------------------------------------------------------------
 // choice tape
 
-// Tape is the single source of every decision of a run. In generate mode values come from a
-// PRNG seeded with the run seed; in replay mode they come from a recorded tape (values are
-// reduced modulo the number of alternatives; past the end every choice is 0, the simplest).
+// Tape is the single source of every decision of a run. It consists of named streams: one
+// for the generated configuration ("build"), one for the scheduler ("sched") and one per
+// task name for the decisions that task makes while it runs (workload, faults). Separate
+// streams keep the minimiser effective: removing a scheduling decision does not shift the
+// workload decisions of a script and vice versa. In generate mode every stream is a PRNG
+// seeded from (run seed, stream name); in replay mode values come from the recorded streams
+// (reduced modulo the number of alternatives; past the end every choice is 0, the simplest).
 type Tape struct {
+	seed    uint64
+	gen     bool
+	streams map[string]*tstream
+	order   []string
+	Trace   bool
+	Labels  []string // decoded choices in global order (only when Trace)
+	Phase   string   // stream used by the scheduler goroutine: "build" or "sched"
+	n       int
+}
+
+type tstream struct {
 	rng    *rand.Rand
 	replay []uint32
 	pos    int
-	Rec    []uint32
-	Labels []string // only kept when Trace is set
-	Trace  bool
+	rec    []uint32
 }
+
+// TapeData is the serialised form: stream name -> values.
+type TapeData map[string][]uint32
 
 func NewTapeSeed(seed uint64) *Tape {
-	return &Tape{rng: rand.New(rand.NewPCG(seed, 0x9e3779b97f4a7c15))}
+	return &Tape{seed: seed, gen: true, streams: map[string]*tstream{}, Phase: "build"}
 }
 
-func NewTapeReplay(vals []uint32) *Tape { return &Tape{replay: vals} }
+func NewTapeReplay(d TapeData) *Tape {
+	t := &Tape{streams: map[string]*tstream{}, Phase: "build"}
+	for k, v := range d {
+		t.streams[k] = &tstream{replay: v}
+		t.order = append(t.order, k)
+	}
+	sort.Strings(t.order)
+	return t
+}
+
+//go:norace
+func (t *Tape) stream() (*tstream, string) {
+	name := t.Phase
+	if task := simrt.Self(); task != nil {
+		name = task.Name
+	}
+	s := t.streams[name]
+	if s == nil {
+		s = &tstream{}
+		if t.gen {
+			s.rng = rand.New(rand.NewPCG(t.seed, fnv64(name)))
+		}
+		t.streams[name] = s
+		t.order = append(t.order, name)
+	}
+	return s, name
+}
 
 //go:norace
 func (t *Tape) Choose(n int, label string) int {
 	if n <= 1 {
 		return 0
 	}
+	s, name := t.stream()
 	var v uint32
-	if t.rng != nil {
-		v = uint32(t.rng.IntN(n))
+	if s.rng != nil {
+		v = uint32(s.rng.IntN(n))
 	} else {
-		if t.pos < len(t.replay) {
-			v = t.replay[t.pos] % uint32(n)
+		if s.pos < len(s.replay) {
+			v = s.replay[s.pos] % uint32(n)
 		}
-		t.pos++
+		s.pos++
 	}
-	t.Rec = append(t.Rec, v)
+	s.rec = append(s.rec, v)
+	t.n++
 	if t.Trace {
-		t.Labels = append(t.Labels, fmt.Sprintf("%s=%d/%d", label, v, n))
+		t.Labels = append(t.Labels, fmt.Sprintf("%s/%s=%d/%d", name, label, v, n))
 	}
 	return int(v)
+}
+
+// Data returns what was consumed, with trailing zeros stripped (they are implicit).
+//
+//go:norace
+func (t *Tape) Data() TapeData {
+	d := TapeData{}
+	for k, s := range t.streams {
+		r := s.rec
+		for len(r) > 0 && r[len(r)-1] == 0 {
+			r = r[:len(r)-1]
+		}
+		if len(r) > 0 {
+			d[k] = append([]uint32(nil), r...)
+		}
+	}
+	return d
+}
+
+//go:norace
+func (t *Tape) Len() int { return t.n }
+
+func (d TapeData) Len() int {
+	n := 0
+	for _, v := range d {
+		n += len(v)
+	}
+	return n
+}
+
+func (d TapeData) Sum() uint64 {
+	var s uint64
+	for _, v := range d {
+		for _, x := range v {
+			s += uint64(x)
+		}
+	}
+	return s
+}
+
+func (d TapeData) Clone() TapeData {
+	c := TapeData{}
+	for k, v := range d {
+		c[k] = append([]uint32(nil), v...)
+	}
+	return c
+}
+
+func (d TapeData) Keys() []string {
+	var k []string
+	for s := range d {
+		k = append(k, s)
+	}
+	sort.Strings(k)
+	return k
 }
 
 // Bool draws a boolean that is true with probability num/den; 0 on the tape means false.
@@ -116,6 +215,7 @@ type World struct {
 	FaultRate map[string]int // per kind: probability n/64 per opportunity
 	StepCheck func()         // invariant evaluated after every scheduling step
 	scData    any            // scenario private data handed from Build to Check
+	uniq      int
 
 	States map[string]struct{} // distinct abstract states (hashes) seen
 }
@@ -595,11 +695,26 @@ func panicSite(stack string) string {
 }
 
 func trimStack(s string) string {
-	lines := strings.Split(s, "\n")
-	if len(lines) > 40 {
-		lines = lines[:40]
+	// keep function names and file:line only: addresses, argument values and goroutine ids
+	// differ between executions and must not reach the canonical log
+	var out []string
+	for _, l := range strings.Split(s, "\n") {
+		if strings.HasPrefix(l, "goroutine ") || strings.HasPrefix(l, "created by ") {
+			continue
+		}
+		if strings.HasPrefix(l, "\t") {
+			if i := strings.Index(l, " +0x"); i > 0 {
+				l = l[:i]
+			}
+		} else if i := strings.LastIndexByte(l, '('); i > 0 {
+			l = l[:i]
+		}
+		out = append(out, l)
+		if len(out) >= 40 {
+			break
+		}
 	}
-	return strings.Join(lines, "\n")
+	return strings.Join(out, "\n")
 }
 
 // Observe runs f on the scheduler goroutine while every task is parked. If f needs a lock
@@ -620,5 +735,17 @@ func (w *World) Observe(f func()) (ok bool) {
 		}
 	}()
 	f()
+	return true
+}
+
+// scriptsDone reports whether every plan task whose name starts with prefix has finished.
+//
+//go:norace
+func (w *World) scriptsDone(prefix string) bool {
+	for _, t := range w.planTasks {
+		if strings.HasPrefix(t.Name, prefix) && !t.Done() {
+			return false
+		}
+	}
 	return true
 }
